@@ -172,7 +172,7 @@ def replay(pid: str, path: str) -> int:
     mod.run_case(ctx, case)
     if hasattr(mod, "finish"):
         mod.finish(ctx)
-    if ctx.violations:
+    if ctx.n_violations:
         for v in ctx.violations[:5]:
             print(f"VIOLATION property={pid} replay={path}")
             print(f"  mechanism={v['mechanism']} what={v['what']}")
